@@ -34,6 +34,14 @@ func zzRows(n int, tag string) [][]string {
 	for i := range rows {
 		rows[i] = []string{fmt.Sprintf("k%03d", i), tag}
 	}
+	// emptyCells = 1: the last row of every table ends in an empty cell and one more
+	// row has an empty non-key cell (empty cells are ordinary CSV content)
+	if zzverif.Param("emptyCells", 0) == 1 && n > 0 {
+		rows[n-1][1] = ""
+		if n > 2 {
+			rows[1][1] = ""
+		}
+	}
 	return rows
 }
 
